@@ -58,6 +58,8 @@ type World struct {
 	// lossCause: for a transaction of a released batch that was found neither in the chain, nor in the block waiting
 	// at height+1, nor (again) in the sequencer's queue after some operation: what that operation was
 	lossCause map[string]string
+	// handedBefore: len(handed) before the last operation if that was a reap, -1 otherwise
+	handedBefore int
 }
 
 func describe(ws hx.WriteSet) string {
@@ -165,6 +167,10 @@ func Run(c *hx.Ctx) {
 			return
 		}
 		c.Hit(o.Verb)
+		hb := w.handedBefore
+		if o.Verb != "mempool" && o.Verb != "drain" {
+			w.handedBefore = -1 // `mempool` and `drain` write nothing: the last operation with durable writes stays the last
+		}
 		if o.Verb != "reset" && (w.env == nil || w.dead) {
 			c.Emit("dead")
 			continue
@@ -193,6 +199,7 @@ func Run(c *hx.Ctx) {
 			w.from = e.DS.NumWrites()
 			seenBefore := w.count("/reap/")
 			qBefore := w.count("/seq/")
+			w.handedBefore = len(w.handed)
 			w.reaper.SubmitTxs()
 			// ghost: after a successful hand-off the transactions are marked as seen
 			if w.count("/seq/") > qBefore || w.count("/reap/") > seenBefore {
@@ -233,6 +240,11 @@ func Run(c *hx.Ctx) {
 					}
 					w.cause = "crash-between-" + last + "-and-" + kindOf(describe(e.DS.Log[keep]))
 					w.crashed = true
+					if keep == w.from && hb >= 0 {
+						// the process died before the queue write of the hand-off was durable: the sequencing layer never
+						// acknowledged it, nothing is marked, the transactions are still the mempool's (offered again)
+						w.handed = w.handed[:hb]
+					}
 				}
 			}
 			img := e.DS.ImageAt(keep)
@@ -247,7 +259,9 @@ func Run(c *hx.Ctx) {
 			}
 		case "drain":
 			// quiescence: reap until nothing is new, produce until the queue is empty, then check conservation
-			c.Emit("ok")
+			// (what is still in flight — in the block waiting at height+1 or in the queue's WAL — is printed and compared
+			// with the model: such a transaction is not lost, and a node that stops including them shows as a difference)
+			c.Emit("ok inflight=%d", w.inFlight())
 			w.checkConservation()
 		default:
 			c.Emit("bad-op")
@@ -320,8 +334,9 @@ func (w *World) checkConservation() {
 			chain = append(chain, tx)
 		}
 	}
+	dur := w.durableTxs()
 	for _, tx := range w.handed {
-		if !containsTx(chain, tx) {
+		if !containsTx(chain, tx) && !dur[string(tx)] {
 			sig := "C11/lost/other"
 			if cause, ok := w.lossCause[string(tx)]; ok {
 				// the operation after which the released batch was in no block, not waiting at height+1 and not queued
@@ -393,6 +408,21 @@ func (w *World) durableTxs() map[string]bool {
 		}
 	}
 	return out
+}
+
+// inFlight: number of transactions in the block waiting at height+1 plus in the queue's WAL
+func (w *World) inFlight() int {
+	e := w.env
+	n := 0
+	if _, d, err := e.Store.GetBlockData(context.Background(), e.Height()+1); err == nil {
+		n += len(d.Txs)
+	}
+	for k, v := range e.DS.Image() {
+		if strings.HasPrefix(k, "/seq/") {
+			n += len(decodeBatch(v))
+		}
+	}
+	return n
 }
 
 // decodeBatch: `repeated bytes txs = 1` (the queue's WAL value)
